@@ -13,7 +13,13 @@
                   Comma | SE (statement expression: one statement, then the
                   value expression) | CntLt (a = k: own counter++ < k, only as
                   the condition of an if: makes backward gotos terminate)
-     loop conditions are attributes (terminating condition language):
+     loops and switches whose controlling expressions are expression SUBTREES
+     (so that a statement expression with break / continue / goto can sit in
+     them): WhileE [cond, body] | DoE [body, cond] | ForE [cond, body, inc]
+     (written for (c = 0; cond; inc) body) | SwitchE [cond, body].  The
+     controlling expressions of a loop are not part of its body: a break or
+     continue in them belongs to the ENCLOSING loop / switch.
+     loop conditions of While/Do/For are attributes (terminating condition language):
                   a = 0: constant 0; a = 9: constant 1; a = k in 1..3: own
                   counter < k;  b bit 0: the condition is `(mark, cond)`;
                   b bit 1 (For): the increment is `(mark, counter++)`.
@@ -52,12 +58,15 @@ CONSTANTS MaxN,       \* nodes per program
           CaseVals,   \* case label values (CaseR uses lo < hi from this set)
           NLab,       \* label names 1..NLab
           Fuel,       \* Level A step bound (programs that need more are discarded)
-          Variant,    \* "ok" | "norestore-cont" | "norestore-brk" | "norestore-sw" | "and-or-mixup" | "default-first" | "range-open"
+          ForLate,    \* TRUE: stmt() sets brk/cont_label of a `for` only after its three clauses (repaired tree);
+                      \* FALSE: before them (pinned: a break in a clause binds to the for itself) - must be rejected
+          Variant,    \* "do-restore-late" | "ok" | "norestore-cont" | "norestore-brk" | "norestore-sw" | "and-or-mixup" | "default-first" | "range-open"
           Emit
 
 Loops == {"While", "Do", "For"}
+ELoops == {"WhileE", "DoE", "ForE"}
 StmtKinds == {"Mark", "Seq", "If", "IfElse", "While", "Do", "For", "Switch", "Case", "CaseR", "Default",
-              "Break", "Continue", "Goto", "GotoStar", "Label", "Expr"}
+              "Break", "Continue", "Goto", "GotoStar", "Label", "Expr", "WhileE", "DoE", "ForE", "SwitchE"}
 ExprKinds == {"T", "F", "Not", "And", "Or", "Cond", "Comma", "SE", "CntLt"}
 
 Node(k, a, b, par, pos, d) == [k |-> k, a |-> a, b |-> b, par |-> par, pos |-> pos, kids |-> <<>>, d |-> d]
@@ -73,6 +82,10 @@ ChildTypes(k, a) ==
     [] k \in {"And", "Or", "Comma"} -> <<"e", "e">>
     [] k = "Cond"   -> <<"e", "e", "e">>
     [] k = "SE"     -> <<"s", "e">>
+    [] k = "WhileE" -> <<"c", "s">>
+    [] k = "DoE"    -> <<"s", "c">>
+    [] k = "ForE"   -> <<"c", "s", "e">>
+    [] k = "SwitchE" -> <<"e", "s">>
     [] OTHER        -> <<>>
 
 ----------------------------------------------------------------------------
@@ -80,9 +93,18 @@ ChildTypes(k, a) ==
 RECURSIVE AncWith(_, _, _)
 (* nearest proper-or-self ancestor of i whose kind is in S; 0 if none *)
 AncWith(P, i, S) == IF i = 0 THEN 0 ELSE IF P[i].k \in S THEN i ELSE AncWith(P, P[i].par, S)
-EnclBreak(P, i)  == AncWith(P, P[i].par, Loops \cup {"Switch"})
-EnclLoop(P, i)   == AncWith(P, P[i].par, Loops)
-EnclSwitch(P, i) == AncWith(P, P[i].par, {"Switch"})
+(* the position of the body among the children of a construct with expression clauses *)
+BodyPos(k) == CASE k = "WhileE" -> 2 [] k = "DoE" -> 1 [] k = "ForE" -> 2 [] k = "SwitchE" -> 2 [] OTHER -> 0
+RECURSIVE EnclIn(_, _, _, _)
+(* nearest construct of a kind in S around the pos-th child of p, counting a construct with expression
+   clauses only if we come from its BODY; 0 if none *)
+EnclIn(P, p, pos, S) ==
+  IF p = 0 THEN 0
+  ELSE IF P[p].k \in S /\ (BodyPos(P[p].k) = 0 \/ BodyPos(P[p].k) = pos) THEN p
+  ELSE EnclIn(P, P[p].par, P[p].pos, S)
+EnclBreak(P, i)  == EnclIn(P, P[i].par, P[i].pos, Loops \cup ELoops \cup {"Switch", "SwitchE"})
+EnclLoop(P, i)   == EnclIn(P, P[i].par, P[i].pos, Loops \cup ELoops)
+EnclSwitch(P, i) == EnclIn(P, P[i].par, P[i].pos, {"Switch", "SwitchE"})
 CasesOf(P, s)    == {j \in DOMAIN P : P[j].k \in {"Case", "CaseR", "Default"} /\ EnclSwitch(P, j) = s}
 Covers(nd, v)    == \/ nd.k = "Case" /\ nd.a = v
                     \/ nd.k = "CaseR" /\ nd.a <= v /\ v <= nd.b
@@ -103,6 +125,10 @@ FramesUnder(P, p, j) ==
     [] k = "Do"     -> <<Fr("do", p, 0)>>
     [] k = "For"    -> <<Fr("fori", p, 0)>>
     [] k = "Switch" -> <<Fr("sw", p, 0)>>
+    [] k = "WhileE" -> IF j = 1 THEN <<Fr("wdec", p, 0)>> ELSE <<Fr("loopE", p, 0)>>
+    [] k = "DoE"    -> IF j = 1 THEN <<Fr("doE", p, 0)>> ELSE <<Fr("ddec", p, 0)>>
+    [] k = "ForE"   -> IF j = 1 THEN <<Fr("fdec", p, 0)>> ELSE IF j = 2 THEN <<Fr("fincE", p, 0)>> ELSE <<Fr("ftest", p, 0)>>
+    [] k = "SwitchE" -> IF j = 1 THEN <<Fr("swdec", p, 0)>> ELSE <<Fr("sw", p, 0)>>
     [] k \in {"If", "IfElse"} -> IF j = 1 THEN <<Fr("ifc", p, 0)>> ELSE <<>>
     [] k = "Not"    -> <<Fr("not", p, 0)>>
     [] k = "And"    -> IF j = 1 THEN <<Fr("and", p, 0)>> ELSE <<Fr("bool", p, 0)>>
@@ -144,6 +170,10 @@ StepA(P, s) ==
            [] nd.k = "While"  -> [s EXCEPT !.st = Append(r, Fr("loop", i, 0)), !.cnt[i] = 0]
            [] nd.k = "Do"     -> [s EXCEPT !.st = r \o <<Fr("do", i, 0), X(kid(1))>>, !.cnt[i] = 0]
            [] nd.k = "For"    -> [s EXCEPT !.st = Append(r, Fr("forc", i, 0)), !.cnt[i] = 0]
+           [] nd.k = "WhileE" -> [s EXCEPT !.st = Append(r, Fr("loopE", i, 0))]
+           [] nd.k = "DoE"    -> [s EXCEPT !.st = r \o <<Fr("doE", i, 0), X(kid(1))>>]
+           [] nd.k = "ForE"   -> [s EXCEPT !.st = Append(r, Fr("ftest", i, 0)), !.cnt[i] = 0]
+           [] nd.k = "SwitchE" -> [s EXCEPT !.st = r \o <<Fr("swdec", i, 0), X(kid(1))>>]
            [] nd.k = "Switch" ->
                 LET cs == CasesOf(P, i)
                     hit == {j \in cs : Covers(P[j], nd.a)}
@@ -153,8 +183,8 @@ StepA(P, s) ==
                 IN IF tg = 0 THEN [s EXCEPT !.st = r, !.acc = nd.a]
                    ELSE [s EXCEPT !.st = Append(StackAt(P, tg), X(tg)), !.acc = nd.a]
            [] nd.k \in {"Case", "CaseR", "Default", "Label", "Expr"} -> [s EXCEPT !.st = Append(r, X(kid(1)))]
-           [] nd.k = "Break"    -> [s EXCEPT !.st = PopTo(r, {"loop", "do", "fori", "sw"}, FALSE)]
-           [] nd.k = "Continue" -> [s EXCEPT !.st = PopTo(r, {"loop", "do", "fori"}, TRUE)]
+           [] nd.k = "Break"    -> [s EXCEPT !.st = PopTo(r, {"loop", "do", "fori", "sw", "loopE", "doE", "fincE"}, FALSE)]
+           [] nd.k = "Continue" -> [s EXCEPT !.st = PopTo(r, {"loop", "do", "fori", "loopE", "doE", "fincE"}, TRUE)]
            [] nd.k \in {"Goto", "GotoStar"} ->
                 LET tg == LabelNode(P, nd.a) IN
                 IF tg = 0 THEN [s EXCEPT !.halt = TRUE, !.out = Append(@, -1)]
@@ -190,6 +220,22 @@ StepA(P, s) ==
          [s EXCEPT !.out = IF Bit(nd.b, 1) THEN Append(@, 200 + i) ELSE @,
                    !.cnt[i] = @ + 1, !.st = Append(r, Fr("forc", i, 0))]
     [] f.t = "sw"   -> [s EXCEPT !.st = r]
+    (* constructs with expression clauses: the marker frame (loopE / doE / fincE) is on the stack only
+       while the BODY runs; the clauses run on wdec / ddec / fdec / ftest, which break and continue skip *)
+    [] f.t = "loopE" -> [s EXCEPT !.st = r \o <<Fr("wdec", i, 0), X(kid(1))>>]
+    [] f.t = "wdec"  -> IF s.acc # 0 THEN [s EXCEPT !.st = r \o <<Fr("loopE", i, 0), X(kid(2))>>] ELSE [s EXCEPT !.st = r]
+    [] f.t = "doE"   -> [s EXCEPT !.st = r \o <<Fr("ddec", i, 0), X(kid(2))>>]
+    [] f.t = "ddec"  -> IF s.acc # 0 THEN [s EXCEPT !.st = r \o <<Fr("doE", i, 0), X(kid(1))>>] ELSE [s EXCEPT !.st = r]
+    [] f.t = "ftest" -> [s EXCEPT !.st = r \o <<Fr("fdec", i, 0), X(kid(1))>>]
+    [] f.t = "fdec"  -> IF s.acc # 0 THEN [s EXCEPT !.st = r \o <<Fr("fincE", i, 0), X(kid(2))>>] ELSE [s EXCEPT !.st = r]
+    [] f.t = "fincE" -> [s EXCEPT !.st = r \o <<Fr("ftest", i, 0), X(kid(3))>>]
+    [] f.t = "swdec" ->
+         LET cs == CasesOf(P, i)
+             hit == {j \in cs : Covers(P[j], s.acc)}
+             df  == {j \in cs : P[j].k = "Default"}
+             tg  == IF hit # {} THEN CHOOSE j \in hit : TRUE
+                    ELSE IF df # {} THEN CHOOSE j \in df : TRUE ELSE 0
+         IN IF tg = 0 THEN [s EXCEPT !.st = r] ELSE [s EXCEPT !.st = Append(StackAt(P, tg), X(tg))]
     [] f.t = "not"  -> [s EXCEPT !.st = r, !.acc = IF @ = 0 THEN 1 ELSE 0]
     [] f.t = "bool" -> [s EXCEPT !.st = r, !.acc = IF @ = 0 THEN 0 ELSE 1]
     [] f.t = "and"  -> IF s.acc = 0 THEN [s EXCEPT !.st = r, !.acc = 0]
@@ -249,6 +295,23 @@ Enter(P, L0, i) ==
                      ELSE CondCode(P, i, k = "While") \o <<Jz(b)>>)
          IN push([L EXCEPT !.uq = @ + 2, !.ct = @ + 1, !.brk = b, !.cont = c, !.code = @ \o pre,
                            !.own[i] = [brk |-> b, cont |-> c]], f)
+    (* while (cond) body: the condition is parsed BEFORE brk/cont_label are set *)
+    [] k = "WhileE" -> push([L EXCEPT !.ct = @ + 1, !.code = Append(@, Lbl(<<"begin", L.ct>>))], LF(i, 1, L.ct))
+    (* do body while (cond): labels set, body, labels restored, THEN the condition *)
+    [] k = "DoE" ->
+         LET b == U(L.uq)  c == U(L.uq + 1)
+             f == [LF(i, 1, L.ct) EXCEPT !.brk = L.brk, !.cont = L.cont]
+         IN push([L EXCEPT !.uq = @ + 2, !.ct = @ + 1, !.brk = b, !.cont = c, !.code = Append(@, Lbl(<<"begin", L.ct>>)),
+                           !.own[i] = [brk |-> b, cont |-> c]], f)
+    (* for (init; cond; inc) body *)
+    [] k = "ForE" ->
+         LET b == U(L.uq)  c == U(L.uq + 1)
+             f == [LF(i, 1, L.ct) EXCEPT !.brk = L.brk, !.cont = L.cont]
+             L1 == [L EXCEPT !.uq = @ + 2, !.ct = @ + 1, !.own[i] = [brk |-> b, cont |-> c],
+                             !.code = @ \o <<Op("reset", i, 0, NoL, 0), Lbl(<<"begin", L.ct>>)>>]
+         IN push(IF ForLate THEN L1 ELSE [L1 EXCEPT !.brk = b, !.cont = c], f)
+    (* switch (cond) body: the condition is parsed before current_switch / brk_label are set *)
+    [] k = "SwitchE" -> push(L, LF(i, 1, 0))
     [] k = "Switch" ->
          LET b == U(L.uq)
              f == [LF(i, 1, 0) EXCEPT !.brk = L.brk, !.sw = L.sw, !.ph = Len(L.code) + 2]
@@ -314,6 +377,29 @@ After(P, L) ==
     [] k = "For" ->
          [e(<<Lbl(own.cont)>> \o IncCode(P, i) \o <<Jmp(<<"begin", c>>, 0), Lbl(own.brk)>>)
             EXCEPT !.brk = f.brk, !.cont = f.cont]
+    [] k = "WhileE" ->
+         IF f.j = 1
+         THEN LET b == U(L.uq)  cc == U(L.uq + 1) IN
+              [e(<<Jz(b)>>) EXCEPT !.uq = @ + 2, !.brk = b, !.cont = cc, !.own[i] = [brk |-> b, cont |-> cc],
+                                   !.fr = Append(rest, [f EXCEPT !.j = 2, !.brk = L.brk, !.cont = L.cont])]
+         ELSE [e(<<Lbl(own.cont), Jmp(<<"begin", c>>, 0), Lbl(own.brk)>>) EXCEPT !.brk = f.brk, !.cont = f.cont]
+    [] k = "DoE" ->
+         IF f.j = 1
+         THEN (IF Variant = "do-restore-late" THEN e(<<Lbl(own.cont)>>)
+               ELSE [e(<<Lbl(own.cont)>>) EXCEPT !.brk = f.brk, !.cont = f.cont])
+         ELSE [e(<<Jnz(<<"begin", c>>), Lbl(own.brk)>>) EXCEPT !.brk = f.brk, !.cont = f.cont]
+    [] k = "ForE" ->
+         IF f.j = 1 THEN (IF ForLate THEN [e(<<Jz(own.brk)>>) EXCEPT !.brk = own.brk, !.cont = own.cont] ELSE e(<<Jz(own.brk)>>))
+         ELSE IF f.j = 2 THEN (IF ForLate THEN [e(<<Lbl(own.cont)>>) EXCEPT !.brk = f.brk, !.cont = f.cont] ELSE e(<<Lbl(own.cont)>>))
+         ELSE [e(<<Op("inc", i, 0, NoL, 0), Jmp(<<"begin", c>>, 0), Lbl(own.brk)>>) EXCEPT !.brk = f.brk, !.cont = f.cont]
+    [] k = "SwitchE" ->
+         IF f.j = 1
+         THEN LET b == U(L.uq) IN
+              [e(<<Op("dispatch", i, 0, NoL, 0)>>) EXCEPT !.uq = @ + 1, !.brk = b, !.sw = i, !.own[i] = [brk |-> b, cont |-> NoL],
+                     !.fr = Append(rest, [f EXCEPT !.j = 2, !.brk = L.brk, !.sw = L.sw, !.ph = Len(L.code) + 1])]
+         ELSE LET ch == Chain(L, i, own.brk)
+                  patched == SubSeq(L.code, 1, f.ph - 1) \o ch \o SubSeq(L.code, f.ph + 1, Len(L.code))
+              IN [L1 EXCEPT !.code = Append(patched, Lbl(own.brk)), !.brk = f.brk, !.sw = f.sw]
     [] k = "Switch" ->
          LET ch == Chain(L, i, own.brk)
              patched == SubSeq(L.code, 1, f.ph - 1) \o ch \o SubSeq(L.code, f.ph + 1, Len(L.code))
@@ -385,28 +471,28 @@ Init == /\ prog = <<>> /\ holes = <<Hole(0, 1, "s", 1)>>
 RECURSIVE FirstOf(_, _)
 FirstOf(p, S) == IF p = 0 THEN 0 ELSE IF prog[p].k \in S THEN p ELSE FirstOf(prog[p].par, S)
 InSE(p)      == FirstOf(p, {"SE"}) # 0
-CaseOK(p)    == LET x == FirstOf(p, {"Switch", "SE"}) IN x # 0 /\ prog[x].k = "Switch"
-SwitchOf(p)  == FirstOf(p, {"Switch"})
+CaseOK(p, q)   == LET x == EnclIn(prog, p, q, {"Switch", "SwitchE", "SE"}) IN x # 0 /\ prog[x].k # "SE"
+SwitchOf(p, q) == EnclIn(prog, p, q, {"Switch", "SwitchE"})
 Taken(s, lo, hi) == \E j \in DOMAIN prog : /\ prog[j].k \in {"Case", "CaseR"}
-                                            /\ AncWith(prog, prog[j].par, {"Switch"}) = s
+                                            /\ EnclSwitch(prog, j) = s
                                             /\ LET jl == prog[j].a  jh == IF prog[j].k = "Case" THEN prog[j].a ELSE prog[j].b
                                                IN ~(hi < jl \/ jh < lo)
-HasDefault(s) == \E j \in DOMAIN prog : prog[j].k = "Default" /\ AncWith(prog, prog[j].par, {"Switch"}) = s
+HasDefault(s) == \E j \in DOMAIN prog : prog[j].k = "Default" /\ EnclSwitch(prog, j) = s
 
 (* candidate nodes <<kind, a, b>> for a hole of type t below node p *)
-Cands(t, p) ==
+Cands(t, p, q) ==
   LET K(S) == S \cap Kinds
-      stm == { <<k, 0, 0>> : k \in K({"Mark", "If", "IfElse", "Expr"}) }
+      stm == { <<k, 0, 0>> : k \in K({"Mark", "If", "IfElse", "Expr", "WhileE", "DoE", "ForE", "SwitchE"}) }
              \cup { <<"Seq", a, 0>> : a \in IF "Seq" \in Kinds THEN {2, 3} ELSE {} }
              \cup { <<k, a, b>> : k \in K({"While", "Do"}), a \in LoopConds, b \in LoopB \cap {0, 1} }
              \cup { <<"For", a, b>> : a \in IF "For" \in Kinds THEN LoopConds ELSE {}, b \in LoopB }
              \cup { <<"Switch", v, 0>> : v \in IF "Switch" \in Kinds THEN SwVals ELSE {} }
-             \cup { <<"Case", v, 0>> : v \in IF "Case" \in Kinds /\ CaseOK(p) THEN {x \in CaseVals : ~Taken(SwitchOf(p), x, x)} ELSE {} }
-             \cup { <<"CaseR", c[1], c[2]>> : c \in IF "CaseR" \in Kinds /\ CaseOK(p)
-                                                   THEN {y \in CaseVals \X CaseVals : y[1] < y[2] /\ ~Taken(SwitchOf(p), y[1], y[2])} ELSE {} }
-             \cup { <<"Default", 0, 0>> : x \in IF "Default" \in Kinds /\ CaseOK(p) /\ ~HasDefault(SwitchOf(p)) THEN {1} ELSE {} }
-             \cup { <<"Break", 0, 0>> : x \in IF "Break" \in Kinds /\ FirstOf(p, Loops \cup {"Switch"}) # 0 THEN {1} ELSE {} }
-             \cup { <<"Continue", 0, 0>> : x \in IF "Continue" \in Kinds /\ FirstOf(p, Loops) # 0 THEN {1} ELSE {} }
+             \cup { <<"Case", v, 0>> : v \in IF "Case" \in Kinds /\ CaseOK(p, q) THEN {x \in CaseVals : ~Taken(SwitchOf(p, q), x, x)} ELSE {} }
+             \cup { <<"CaseR", c[1], c[2]>> : c \in IF "CaseR" \in Kinds /\ CaseOK(p, q)
+                                                   THEN {y \in CaseVals \X CaseVals : y[1] < y[2] /\ ~Taken(SwitchOf(p, q), y[1], y[2])} ELSE {} }
+             \cup { <<"Default", 0, 0>> : x \in IF "Default" \in Kinds /\ CaseOK(p, q) /\ ~HasDefault(SwitchOf(p, q)) THEN {1} ELSE {} }
+             \cup { <<"Break", 0, 0>> : x \in IF "Break" \in Kinds /\ EnclIn(prog, p, q, Loops \cup ELoops \cup {"Switch", "SwitchE"}) # 0 THEN {1} ELSE {} }
+             \cup { <<"Continue", 0, 0>> : x \in IF "Continue" \in Kinds /\ EnclIn(prog, p, q, Loops \cup ELoops) # 0 THEN {1} ELSE {} }
              \cup { <<k, n, 0>> : k \in K({"Goto", "GotoStar"}), n \in 1..NLab }
              \cup { <<"Label", n, 0>> : n \in IF "Label" \in Kinds /\ ~InSE(p)
                                               THEN {x \in 1..NLab : \A j \in DOMAIN prog : ~(prog[j].k = "Label" /\ prog[j].a = x)} ELSE {} }
@@ -442,7 +528,7 @@ Add(c) ==
         ELSE UNCHANGED <<code, own, ra, ri, done>>
 
 Next == /\ ~done /\ holes # <<>>
-        /\ \E c \in Cands(holes[Len(holes)].t, holes[Len(holes)].par) : Add(c)
+        /\ \E c \in Cands(holes[Len(holes)].t, holes[Len(holes)].par, holes[Len(holes)].pos) : Add(c)
 Spec == Init /\ [][Next]_vars
 
 ----------------------------------------------------------------------------
